@@ -30,6 +30,7 @@ SOFTWARE.
 #include <iostream>
 #include <stdexcept>
 #include <string>
+#include "Fastor/config/verif_hooks.h"
 
 //------------------------------------------------------------------------------------------------//
 //------------------------------------------------------------------------------------------------//
